@@ -17,6 +17,7 @@ Assumed: key components are compared the way the memo needs (hashable, equal iff
 function (module globals, builtins, imported helpers) are constant.
 """
 import ast
+import re
 import importlib
 import inspect
 
@@ -180,6 +181,69 @@ def _function_obligations(modname, qual, fn, cache, cls=None):
     return out
 
 
+_CONFLATING = {"Any", "object", "int", "float", "bool", "complex", "Hashable", "Number", "Real", "Decimal"}
+
+
+def _decorator_memos(modname, M, tree):
+    """functions memoised by a decorator (functools.lru_cache / functools.cache): a process-wide memo keyed by the call's arguments under == / hash.  The answer is a
+    function of the arguments only if equal keys mean equal arguments: 1 == True == 1.0 (and tuples of them) are equal keys for different values, so a parameter that may
+    hold numbers - annotated Any / object / int / float / bool, or not annotated - refutes the obligation (typed=True separates only the top-level classes and is accepted for
+    parameters annotated with the plain number classes); str / bytes and classes that compare by identity are fine; anything else is undecided."""
+    obs, undecided = [], []
+
+    def deco_name(d):
+        call = d if not isinstance(d, ast.Call) else d.func
+        name = call.attr if isinstance(call, ast.Attribute) else getattr(call, "id", None)
+        typed = isinstance(d, ast.Call) and any(k.arg == "typed" and isinstance(k.value, ast.Constant) and k.value.value is True for k in d.keywords)
+        return name, typed
+
+    def names_in(ann):
+        return {n.id for n in ast.walk(ann) if isinstance(n, ast.Name)} | {n.attr for n in ast.walk(ann) if isinstance(n, ast.Attribute)} | \
+               {w for n in ast.walk(ann) if isinstance(n, ast.Constant) and isinstance(n.value, str) for w in re.findall(r"\w+", n.value)}
+
+    def visit(node, prefix):
+        for n in ast.iter_child_nodes(node):
+            if isinstance(n, ast.ClassDef):
+                visit(n, prefix + n.name + ".")
+            elif isinstance(n, (ast.FunctionDef, ast.AsyncFunctionDef)):
+                for d in n.decorator_list:
+                    name, typed = deco_name(d)
+                    if name not in ("lru_cache", "cache", "memoize", "memoized", "cached"):
+                        continue
+                    qual = "%s.%s%s" % (modname, prefix, n.name)
+                    params = [a for a in n.args.args + n.args.kwonlyargs if a.arg not in ("self", "cls")]
+                    if n.args.vararg or n.args.kwarg:
+                        params.append(ast.arg(arg="*", annotation=None))
+                    bad, unknown = [], []
+                    for a in params:
+                        if a.annotation is None:
+                            bad.append("%s (not annotated)" % a.arg)
+                            continue
+                        ns = names_in(a.annotation) - {"Optional", "Union", "None", "Sequence", "Tuple", "List", "FrozenSet", "Type", "typing", "t"}
+                        hit = ns & _CONFLATING
+                        if hit and not (typed and ns <= {"int", "float", "bool", "complex"}):
+                            bad.append("%s: %s" % (a.arg, ast.unparse(a.annotation)))
+                            continue
+                        for nm in ns - {"str", "bytes"} - _CONFLATING:
+                            cls = getattr(M, nm, None)
+                            if not (isinstance(cls, type) and cls.__eq__ is object.__eq__ and cls.__hash__ is object.__hash__):
+                                unknown.append("%s: %s" % (a.arg, nm))
+                    oid = "modstate:%s:memo-key-distinguishes-arguments" % qual
+                    if bad:
+                        obs.append({"id": oid, "holds": False, "function": qual,
+                                    "detail": "%s is memoised by @%s for the life of the process; its key compares arguments with == / hash, which takes 1, True and 1.0 (alone or inside "
+                                              "tuples) for the same key although they are different arguments: parameter(s) %s" % (qual, name, "; ".join(bad))})
+                    elif unknown:
+                        undecided.append((qual, "memoised by @%s; whether equal keys mean equal arguments is not decided for %s" % (name, "; ".join(unknown))))
+                    else:
+                        obs.append({"id": oid, "holds": True, "function": qual, "detail": ""})
+                visit(n, prefix + n.name + ".")
+            else:
+                visit(n, prefix)
+    visit(tree, "")
+    return obs, undecided
+
+
 def obligations(modules):
     """-> (obligations, undecided [(function, reason)])"""
     obs, undecided = [], []
@@ -205,6 +269,9 @@ def obligations(modules):
                 else:
                     visit(n, prefix)
         visit(tree, "")
+        memo_obs, memo_und = _decorator_memos(modname, M, tree)
+        obs += memo_obs
+        undecided += memo_und
         if not writers:
             obs.append({"id": "modstate:%s:functions-write-no-module-state" % modname, "holds": True, "detail": "", "function": modname})
             continue
@@ -230,7 +297,7 @@ MODULES = {
     "C11": (["py_gql.sdl.ast_type_builder", "py_gql.sdl.schema_from_ast"], "the schema is a function of the document"),
     "C12": (["py_gql.sdl.ast_schema_printer", "py_gql.utilities.ast_node_from_value", "py_gql.lang.printer"], "serialisation is history-independent"),
     "C13": (["py_gql.schema.validation"], "the verdict is a function of the schema"),
-    "C15": (["py_gql.schema.introspection"], "introspection reports the schema it is asked about"),
+    "C15": (["py_gql.schema.introspection", "py_gql.utilities.ast_node_from_value"], "introspection reports the schema it is asked about"),
     "C19": (["py_gql.utilities.max_depth", "py_gql.utilities.collect_fields"], "the verdict is a function of document, limit and variables"),
     "C20": (["py_gql.schema.differ"], "the changes are a function of the two schemas"),
 }
